@@ -4,6 +4,18 @@
 // `private_key_to_der`, `hash_key`, `jwk_public_key`.
 #![allow(dead_code, unused_imports)]
 use super::*;
+// Named explicitly so that this probe does not depend on which names the parent file happens to import
+// (a clean-up of an unused import there must not break the hooked build).
+#[allow(unused_imports)]
+use acme_common::error::Error;
+#[allow(unused_imports)]
+use crate::storage::FileManager;
+#[allow(unused_imports)]
+use std::collections::HashMap;
+#[allow(unused_imports)]
+use std::time::SystemTime;
+#[allow(unused_imports)]
+use crate::acme_proto::account::register_account;
 use serde_json::{json, Value};
 use std::time::{Duration, UNIX_EPOCH};
 
